@@ -85,7 +85,7 @@ impl Monitor for C17 {
         "exploration"
     }
     fn num_cases(&self, tier: Tier) -> u64 {
-        tier.pick(1600, 40_000)
+        tier.pick(3_200, 80_000)
     }
     fn floors(&self, tier: Tier) -> Vec<(&'static str, u64)> {
         vec![
